@@ -374,6 +374,9 @@ class SimpleJSONRPCDispatcher(SimpleXMLRPCDispatcher, object):
                     config=config,
                 )
                 _logger.error("Error calling method %s: %s", method, fault)
+                if is_notification:
+                    # Notifications are never answered, even on error
+                    return None
                 return fault.dump()
 
             if is_notification:
